@@ -23,6 +23,7 @@ type TierSpec struct {
 	TimeSec    int            `json:"time_sec"`
 	Skip       bool           `json:"skip"`
 	AssertTimeoutMs int       `json:"assert_timeout_ms"`
+	Reach      []string       `json:"reach"`
 }
 
 type HarnessSpec struct {
@@ -240,7 +241,11 @@ func cmdCheck(args []string) int {
 			"violations": len(hr.Violations),
 		})
 		// vacuity
-		for _, tag := range hs.Reach {
+		reach := hs.Reach
+		if ts.Reach != nil {
+			reach = ts.Reach
+		}
+		for _, tag := range reach {
 			if hr.Reach[tag] == 0 && len(hr.Violations) == 0 {
 				problems = append(problems, fmt.Sprintf("%s: reachability tag %q never hit (vacuous?)", hs.Name, tag))
 			}
